@@ -33,7 +33,7 @@ theorem stepTx_get (env : Env) (st : State) (r : TReq) (i : Nat) (σ : Slot) :
     "belief ⇒ actual" at every slot of every worker -/
 theorem agreeAt_compile (env : Env) (st : State) (r : CReq) (σ : Slot)
     (hlo : r.out ≠ .resultUnpicklable) (i : Nat) (h : AgreeAt (st i) σ) :
-    AgreeAt ((stepCompile env st r).1 i) σ := by
+    AgreeAt ((stepCompileRun env st r).1 i) σ := by
   by_cases hi : i = r.w
   case neg => rw [stepCompile_frame env st r i hi]; exact h
   subst hi
@@ -58,11 +58,14 @@ theorem agreeAt_compile (env : Env) (st : State) (r : CReq) (σ : Slot)
       exact ha
 
 theorem agreeAt_step (env : Env) (st : State) (q : Req) (σ : Slot)
-    (hl : q.noStatus2) (h : ∀ i, AgreeAt (st i) σ) :
+    (hl : q.noStatus2) (hr : q.noLostRequest) (h : ∀ i, AgreeAt (st i) σ) :
     ∀ i, AgreeAt ((step env st q).1 i) σ := by
   intro i
   cases q with
-  | compile r => exact agreeAt_compile env st r σ hl i (h i)
+  | compile r =>
+    simp only [step]
+    rw [stepCompile_of_read env st r hr]
+    exact agreeAt_compile env st r σ hl i (h i)
   | tx r =>
     intro x hx
     simp only [step] at hx ⊢
@@ -71,15 +74,17 @@ theorem agreeAt_step (env : Env) (st : State) (q : Req) (σ : Slot)
     exact h i x hx
 
 theorem agreeAt_exec (env : Env) (σ : Slot) (h : List Req) :
-    ∀ st, (∀ i, AgreeAt (st i) σ) → NoStatus2 h → ∀ i, AgreeAt (exec env st h i) σ := by
+    ∀ st, (∀ i, AgreeAt (st i) σ) → NoStatus2 h → NoLostRequest h →
+      ∀ i, AgreeAt (exec env st h i) σ := by
   induction h with
-  | nil => intro st h0 _; exact h0
+  | nil => intro st h0 _ _; exact h0
   | cons q qs ih =>
-    intro st h0 hl
+    intro st h0 hl hr
     simp only [exec]
     apply ih
-    · exact agreeAt_step env st q σ (hl q (by simp)) h0
+    · exact agreeAt_step env st q σ (hl q (by simp)) (hr q (by simp)) h0
     · intro q' hq'; exact hl q' (by simp [hq'])
+    · intro q' hq'; exact hr q' (by simp [hq'])
 
 theorem agreeAt_init (s : Side) (σ : Slot) (i : Nat) : AgreeAt (initState s i) σ := by
   intro x hx
@@ -90,13 +95,13 @@ theorem agreeAt_init (s : Side) (σ : Slot) (i : Nat) : AgreeAt (initState s i) 
 /-! ### a non-`None` `_last_pickled_state` denotes `LAST_STATE` — always -/
 
 theorem lastLe_compile (env : Env) (st : State) (r : CReq) (i : Nat)
-    (h : LastLe (st i)) : LastLe ((stepCompile env st r).1 i) := by
+    (h : LastLe (st i)) : LastLe ((stepCompileRun env st r).1 i) := by
   by_cases hi : i = r.w
   case neg => rw [stepCompile_frame env st r i hi]; exact h
   subst hi
   obtain ⟨b', hb'⟩ := withAck_defined (st r.w).bel r
   unfold LastLe at h ⊢
-  unfold stepCompile
+  unfold stepCompileRun
   simp only []
   generalize wsync env (st r.w).act r.db (preargs (st r.w).bel r) = W
   obtain ⟨a', sres⟩ := W
@@ -128,7 +133,16 @@ theorem lastLe_exec (env : Env) (h : List Req) :
     apply ih
     intro i
     cases q with
-    | compile r => exact lastLe_compile env st r i (h0 i)
+    | compile r =>
+      simp only [step]
+      by_cases hlost : r.out = .requestUnreadable
+      · rw [stepCompile_of_lost env st r hlost]
+        obtain ⟨b', _, hst, _⟩ := stepCompileLost_spec st r
+        rw [hst]
+        by_cases hi : i = r.w
+        · subst hi; simp only [upd_same]; intro x hx; simp [Side.forget] at hx
+        · rw [upd_other _ _ _ _ hi]; exact h0 i
+      · rw [stepCompile_of_read env st r hlost]; exact lastLe_compile env st r i (h0 i)
     | tx r => exact lastLe_tx env st r i (h0 i)
 
 /-! ### what a `compile_in_tx` request uses -/
